@@ -171,11 +171,11 @@ CHECKS.update({
 
 CHECKS.update({
     "C13": dict(
-        engine="E6 real-kernel differential driver",
+        engine="E6 real-kernel differential driver + E1 simulated kernel (encoding audit)",
         category="exploration",
-        text="Generated argument tuples per operation family executed through a10 on the real io_uring (twin A) and through the corresponding libc call (twin B): file I/O at current position / generated offsets / append mode with lengths incl. 0 and 1..8 vectors, truncate, fallocate, fadvise, fsync, statx; directory trees; every OpenOptions combination; stream and datagram sockets over IPv4, IPv6, Unix path and abstract addresses (bind/listen/connect/accept/local_addr/peer_addr/send/recv flags/vectored/shutdown/send_to/recv_from); socket options in both directions; pipes; socket creation; regular and direct descriptors. Compared: returned counts and bytes, file contents, size, blocks, file position, directory listings, F_GETFL/F_GETFD, addresses as getsockname/getpeername report them, option values, success vs failure and errno inside an allow-list.",
+        text="Generated argument tuples per operation family executed through a10 on the real io_uring (twin A) and through the corresponding libc call (twin B): file I/O at current position / generated offsets / append mode with lengths incl. 0 and 1..8 vectors, truncate, fallocate, fadvise, fsync, statx; directory trees; every OpenOptions combination; stream and datagram sockets over IPv4, IPv6, Unix path and abstract addresses (bind/listen/connect/accept/local_addr/peer_addr/send/recv flags/vectored/shutdown/send_to/recv_from); socket options in both directions; pipes; socket creation; regular and direct descriptors. Compared: returned counts and bytes, file contents, size, blocks, file position, directory listings, F_GETFL/F_GETFD, addresses as getsockname/getpeername report them, option values, success vs failure and errno inside an allow-list. Second oracle (C13b, about 22 % of the cases, simulated kernel): the request each of 28 operations submits for generated arguments and builder calls (offsets, every subset of the send/recv flag constants, zero copy, splice flags, allocate modes, advice, statx interest, wait options, address families, descriptor kind regular/direct) is compared field by field, together with the iovecs, msghdr and socket address bytes it points at, with an encoding table written from io_uring_enter(2) / liburing's prep helpers; the request is failed and the future must return exactly that error.",
         design_ref="5/C13",
-        technique="differential testing of generated argument tuples against the libc system call on twin fixtures (real kernel)",
+        technique="differential testing of generated argument tuples against the libc system call on twin fixtures (real kernel), plus property-based audit of the submitted request against an independent encoding table (simulated kernel)",
     ),
 })
 
